@@ -102,7 +102,15 @@ class Case:
     def imp_string(self):
         if not self.ex:  # None, 'best' and 'Best' all mean "no explicit values"
             return [None, "best", "Best"][(self.n + len(self.inter)) % 3]
-        return ",".join("+".join(name(i) for i in s) + "=" + repr(v) for s, v in self.ex)
+        # the string is free text from a spreadsheet cell: the order of the programs in a combination and white space around '+', '=' and ',' carry no meaning
+        style = (self.n + len(self.ex) + int(abs(self.b) * 16)) % 4
+        if style == 0:
+            return ",".join("+".join(name(i) for i in s) + "=" + repr(v) for s, v in self.ex)
+        if style == 1:
+            return ", ".join(" + ".join(name(i) for i in s) + " = " + repr(v) for s, v in self.ex)
+        if style == 2:
+            return ",".join("+".join(name(i) for i in reversed(s)) + "=" + repr(v) for s, v in self.ex)
+        return ",".join(name(s[0]) + "".join("+ " + name(i) for i in s[1:]) + "=" + repr(v) for s, v in self.ex)
 
     def request(self, what):
         toks = ["covout", what, self.inter, q(self.b), str(self.n)]
